@@ -6,5 +6,6 @@ CONSTANTS
   MaxAge = 1
   MaxReap = 1
   Faults = TRUE
-INVARIANTS TypeOK OneTransportPerName IdentitiesNeverReused NeverHalfInitialised BoundedRetries OnlyAgedAreReaped Emit
+  SplitGet = FALSE
+INVARIANTS TypeOK OneTransportPerName CallersShareTheCachedTransport SameNameSameTransport IdentitiesNeverReused NeverHalfInitialised BoundedRetries OnlyAgedAreReaped Emit
 CHECK_DEADLOCK FALSE
